@@ -489,6 +489,29 @@ Proof.
     eapply regd_inj; eauto.
 Qed.
 
+Lemma mput_In_weak {A} k (v : A) m k' v' : In (k', v') (mput k v m) -> (k' = k /\ v' = v) \/ In (k', v') m.
+Proof.
+  induction m as [|[k0 v0] t IH]; cbn [mput In].
+  - intros [H|[]]. inversion H. auto.
+  - destruct (String.eqb k k0); cbn [In].
+    + intros [H|H]; [inversion H; auto|auto].
+    + intros [H|H]; [auto|]. apply IH in H. tauto.
+Qed.
+
+Lemma fold_mput_In (l acc : list (string * nat)) k v :
+  In (k, v) (fold_left (fun a q => mput (fst q) (snd q) a) l acc) -> In (k, v) acc \/ In (k, v) l.
+Proof.
+  revert acc. induction l as [|[k0 v0] t IH]; intros acc; cbn [fold_left fst snd]; [auto|].
+  intros H. apply IH in H as [H|H]; [|cbn [In]; auto].
+  apply mput_In_weak in H as [[-> ->]|H]; cbn [In]; auto.
+Qed.
+Lemma fold_mput_keys (l acc : list (string * nat)) k :
+  In k (map fst (fold_left (fun a q => mput (fst q) (snd q) a) l acc)) <-> In k (map fst acc) \/ In k (map fst l).
+Proof.
+  revert acc. induction l as [|[k0 v0] t IH]; intros acc; cbn [fold_left fst snd map In]; [tauto|].
+  rewrite IH, mput_keys. intuition.
+Qed.
+
 Section WithMatching.
 Variable mf : string -> string -> bool.
 Variable dmf : string -> string -> bool.
@@ -847,29 +870,6 @@ Proof.
   intros W H G. split.
   - intros [i' [o' [H' [G' HI]]]]. assert (i' = i) by (eapply regd_fun; eauto). subst i'. congruence.
   - intros HI. exists i, o. auto.
-Qed.
-
-Lemma mput_In_weak {A} k (v : A) m k' v' : In (k', v') (mput k v m) -> (k' = k /\ v' = v) \/ In (k', v') m.
-Proof.
-  induction m as [|[k0 v0] t IH]; cbn [mput In].
-  - intros [H|[]]. inversion H. auto.
-  - destruct (String.eqb k k0); cbn [In].
-    + intros [H|H]; [inversion H; auto|auto].
-    + intros [H|H]; [auto|]. apply IH in H. tauto.
-Qed.
-
-Lemma fold_mput_In (l acc : list (string * nat)) k v :
-  In (k, v) (fold_left (fun a q => mput (fst q) (snd q) a) l acc) -> In (k, v) acc \/ In (k, v) l.
-Proof.
-  revert acc. induction l as [|[k0 v0] t IH]; intros acc; cbn [fold_left fst snd]; [auto|].
-  intros H. apply IH in H as [H|H]; [|cbn [In]; auto].
-  apply mput_In_weak in H as [[-> ->]|H]; cbn [In]; auto.
-Qed.
-Lemma fold_mput_keys (l acc : list (string * nat)) k :
-  In k (map fst (fold_left (fun a q => mput (fst q) (snd q) a) l acc)) <-> In k (map fst acc) \/ In k (map fst l).
-Proof.
-  revert acc. induction l as [|[k0 v0] t IH]; intros acc; cbn [fold_left fst snd map In]; [tauto|].
-  rewrite IH, mput_keys. intuition.
 Qed.
 
 Lemma check_iff s t k :
@@ -2130,34 +2130,32 @@ Proof.
   - eapply pwalk_equiv; [intros a c; symmetry; apply HL|intros a; symmetry; apply HN|exact Hw].
 Qed.
 
-End WithMatching.
+
 
 (* ================= DomainManager over ALL histories (matching functions included) =================
    every per-domain manager stays well-formed and carries the role matching flag of its owner *)
-Section DomainAll.
-Variable mf : string -> string -> bool.
-Variable dmf : string -> string -> bool.
-Notation Pany := (fun _ : bool => True).
 
 Record DWF (dm : dmgr) : Prop := mkDWF {
   dw_nodup : NoDup (map fst (d_rms dm));
-  dw_rm : forall d rm, In (d, rm) (d_rms dm) -> WF mf rm /\ m_mf rm = d_mf dm }.
+  dw_rm : forall d rm, In (d, rm) (d_rms dm) -> WF rm /\ m_mf rm = d_mf dm }.
 
 Lemma DWF_new : DWF new_dm.
 Proof. constructor; cbn; [constructor|tauto]. Qed.
 
-Lemma DWF_upd dm d rm : DWF dm -> WF mf rm -> m_mf rm = d_mf dm -> DWF (set_rms dm (mput d rm (d_rms dm))).
+Lemma DWF_upd dm d rm : DWF dm -> WF rm -> m_mf rm = d_mf dm -> DWF (set_rms dm (mput d rm (d_rms dm))).
 Proof.
   intros D W M. constructor; cbn [set_rms d_rms d_mf].
   - apply mput_nodup. apply D.
-  - intros d' rm' H. apply mput_In_weak in H as [[_ ->]|H]; [auto|apply (dw_rm _ D _ _ H)].
+  - intros d' rm' H. apply mput_In_weak in H. destruct H as [[_ E]|H].
+    + subst rm'. auto.
+    + apply (dw_rm _ D _ _ H).
 Qed.
 
-Lemma copy_from_WF s other : WF mf s -> WF mf (copy_from mf s other) /\ m_mf (copy_from mf s other) = m_mf s.
-Proof. intros W. destruct (add_links_WF mf (links_of other) s W) as [W' [M' _]]. auto. Qed.
+Lemma copy_from_WF s other : WF s -> WF (copy_from mf s other) /\ m_mf (copy_from mf s other) = m_mf s.
+Proof. intros W. destruct (add_links_WF (links_of other) s W) as [W' [M' _]]. auto. Qed.
 
-Lemma fold_copy_WF (cond : string * rmgr -> bool) l : forall acc, WF mf acc ->
-  WF mf (fold_left (fun a p => if cond p then copy_from mf a (snd p) else a) l acc) /\
+Lemma fold_copy_WF (cond : string * rmgr -> bool) l : forall acc, WF acc ->
+  WF (fold_left (fun a p => if cond p then copy_from mf a (snd p) else a) l acc) /\
   m_mf (fold_left (fun a p => if cond p then copy_from mf a (snd p) else a) l acc) = m_mf acc.
 Proof.
   induction l as [|p t IH]; intros acc W; cbn [fold_left]; [auto|]. destruct (cond p).
@@ -2166,7 +2164,7 @@ Proof.
 Qed.
 
 Lemma get_rm_DWF dm d store dm1 rm : DWF dm -> get_rm mf dmf dm d store = (dm1, rm) ->
-  DWF dm1 /\ WF mf rm /\ m_mf rm = d_mf dm /\ d_mf dm1 = d_mf dm /\ d_dmf dm1 = d_dmf dm.
+  DWF dm1 /\ WF rm /\ m_mf rm = d_mf dm /\ d_mf dm1 = d_mf dm /\ d_dmf dm1 = d_dmf dm.
 Proof.
   intros D E. unfold get_rm in E. destruct (lookup d (d_rms dm)) as [rm0|] eqn:L.
   - inversion E. subst. apply lookup_In in L. destruct (dw_rm _ D _ _ L). auto.
@@ -2174,20 +2172,19 @@ Proof.
     set (rms1 := if store then mput d rm0 (d_rms dm) else d_rms dm) in *.
     set (rm1 := if d_dmf dm then fold_left (fun acc p => if negb (String.eqb d (fst p)) && dm_match dmf dm d (fst p)
                                          then copy_from mf acc (snd p) else acc) rms1 rm0 else rm0) in *.
-    assert (W1 : WF mf rm1 /\ m_mf rm1 = d_mf dm).
+    assert (W1 : WF rm1 /\ m_mf rm1 = d_mf dm).
     { unfold rm1. destruct (d_dmf dm); [|split; [apply WF_new|reflexivity]].
-      destruct (fold_copy_WF (fun p => negb (String.eqb d (fst p)) && dm_match dmf dm d (fst p)) rms1 rm0 (WF_new mf _)) as [Wf Mf].
+      destruct (fold_copy_WF (fun p => negb (String.eqb d (fst p)) && dm_match dmf dm d (fst p)) rms1 rm0 (WF_new _)) as [Wf Mf].
       split; [exact Wf|exact Mf]. }
-    inversion E. subst rm. destruct W1 as [W1 M1]. split; [|auto].
-    destruct store; [|subst dm1; exact D]. subst dm1.
+    inversion E as [[Edm Erm]]. subst rm. clear E. subst dm1. destruct W1 as [W1 M1].
+    split; [|split; [exact W1|split; [exact M1|destruct store; auto]]].
+    destruct store; [|exact D].
     assert (D1 : DWF (set_rms dm rms1)) by (apply DWF_upd; [exact D|apply WF_new|reflexivity]).
     apply (DWF_upd (set_rms dm rms1) d rm1 D1 W1 M1).
-    destruct store; subst dm1; reflexivity.
-    destruct store; subst dm1; reflexivity.
 Qed.
 
 Lemma range_affected_DWF dm d fn : DWF dm ->
-  (forall rm, WF mf rm -> WF mf (fn rm) /\ m_mf (fn rm) = m_mf rm) -> DWF (range_affected dmf dm d fn).
+  (forall rm, WF rm -> WF (fn rm) /\ m_mf (fn rm) = m_mf rm) -> DWF (range_affected dmf dm d fn).
 Proof.
   intros D Hf. unfold range_affected. destruct (d_dmf dm); [|exact D].
   constructor; cbn [set_rms d_rms d_mf].
@@ -2206,12 +2203,12 @@ Lemma dm_add_link_DWF dm u r d : DWF dm ->
 Proof.
   intros D. unfold dm_add_link. destruct (get_rm mf dmf dm d true) as [dm1 rm] eqn:E.
   destruct (get_rm_DWF _ _ _ _ _ D E) as [D1 [W [M [F1 F2]]]].
-  destruct (add_link_WF mf Pany (GRM_any mf) rm u r W Logic.I) as [W' [M' _]].
+  destruct (add_link_WF Pany GRM_any rm u r W Logic.I) as [W' [M' _]].
   assert (D2 : DWF (set_rms dm1 (mput d (add_link mf rm u r) (d_rms dm1)))) by (apply DWF_upd; [exact D1|exact W'|congruence]).
   split; [|destruct (range_affected_flags (set_rms dm1 (mput d (add_link mf rm u r) (d_rms dm1))) d (fun rm2 => add_link mf rm2 u r)) as [A B];
             rewrite A, B; cbn [set_rms d_mf d_dmf]; auto].
   apply range_affected_DWF; [exact D2|]. intros rm2 W2.
-  destruct (add_link_WF mf Pany (GRM_any mf) rm2 u r W2 Logic.I) as [Wa [Ma _]]. auto.
+  destruct (add_link_WF Pany GRM_any rm2 u r W2 Logic.I) as [Wa [Ma _]]. auto.
 Qed.
 
 Lemma dm_delete_link_DWF dm u r d : DWF dm ->
@@ -2219,16 +2216,16 @@ Lemma dm_delete_link_DWF dm u r d : DWF dm ->
 Proof.
   intros D. unfold dm_delete_link. destruct (get_rm mf dmf dm d true) as [dm1 rm] eqn:E.
   destruct (get_rm_DWF _ _ _ _ _ D E) as [D1 [W [M [F1 F2]]]].
-  destruct (delete_link_WF mf Pany (GRM_any mf) rm u r W Logic.I) as [W' [M' _]].
+  destruct (delete_link_WF Pany GRM_any rm u r W Logic.I) as [W' [M' _]].
   assert (D2 : DWF (set_rms dm1 (mput d (delete_link mf rm u r) (d_rms dm1)))) by (apply DWF_upd; [exact D1|exact W'|congruence]).
   split; [|destruct (range_affected_flags (set_rms dm1 (mput d (delete_link mf rm u r) (d_rms dm1))) d (fun rm2 => delete_link mf rm2 u r)) as [A B];
             rewrite A, B; cbn [set_rms d_mf d_dmf]; auto].
   apply range_affected_DWF; [exact D2|]. intros rm2 W2.
-  destruct (delete_link_WF mf Pany (GRM_any mf) rm2 u r W2 Logic.I) as [Wa [Ma _]]. auto.
+  destruct (delete_link_WF Pany GRM_any rm2 u r W2 Logic.I) as [Wa [Ma _]]. auto.
 Qed.
 
 Lemma dm_query_DWF {A} dm d (q : rmgr -> rmgr * A) : DWF dm ->
-  (forall rm, WF mf rm -> WF mf (fst (q rm)) /\ m_mf (fst (q rm)) = m_mf rm) ->
+  (forall rm, WF rm -> WF (fst (q rm)) /\ m_mf (fst (q rm)) = m_mf rm) ->
   DWF (fst (dm_query mf dmf dm d q)) /\ d_mf (fst (dm_query mf dmf dm d q)) = d_mf dm /\ d_dmf (fst (dm_query mf dmf dm d q)) = d_dmf dm.
 Proof.
   intros D Hq. unfold dm_query. destruct (get_rm mf dmf dm d false) as [dm1 rm] eqn:E.
@@ -2261,29 +2258,29 @@ Qed.
 
 Lemma dstep_DWF n dm op : DWF dm -> DWF (fst (dstep mf dmf n dm op)).
 Proof.
-  intros D. destruct op as [u r d|u r d|u r d|u d|u d| | |]; cbn [dstep].
+  intros D. destruct op as [u r d|u r d|u r d|u d|u d| | |]; cbn [dstep fst].
   - apply dm_add_link_DWF. exact D.
   - apply dm_delete_link_DWF. exact D.
   - destruct (dm_has_link mf dmf n dm u r d) as [dm' b] eqn:E. cbn [fst].
     assert (H : DWF (fst (dm_query mf dmf dm d (fun rm => has_link mf n rm u r)))).
     { apply dm_query_DWF; [exact D|]. intros rm W.
-      destruct (has_link_WF mf Pany (GRM_any mf) (URM_any mf) n rm u r W Logic.I) as [W' [M' _]]. auto. }
+      destruct (has_link_WF Pany GRM_any URM_any n rm u r W Logic.I) as [W' [M' _]]. auto. }
     unfold dm_has_link in E. rewrite E in H. exact H.
   - destruct (dm_get_roles mf dmf dm u d) as [dm' b] eqn:E. cbn [fst].
     assert (H : DWF (fst (dm_query mf dmf dm d (fun rm => get_roles mf rm u)))).
     { apply dm_query_DWF; [exact D|]. intros rm W.
-      destruct (get_roles_WF mf Pany (GRM_any mf) (URM_any mf) rm u W Logic.I) as [W' [M' _]]. auto. }
+      destruct (get_roles_WF Pany GRM_any URM_any rm u W Logic.I) as [W' [M' _]]. auto. }
     unfold dm_get_roles in E. rewrite E in H. exact H.
   - destruct (dm_get_users mf dmf dm u d) as [dm' b] eqn:E. cbn [fst].
     assert (H : DWF (fst (dm_query mf dmf dm d (fun rm => get_users mf rm u)))).
     { apply dm_query_DWF; [exact D|]. intros rm W.
-      destruct (get_users_WF mf Pany (GRM_any mf) (URM_any mf) rm u W Logic.I) as [W' [M' _]]. auto. }
+      destruct (get_users_WF Pany GRM_any URM_any rm u W Logic.I) as [W' [M' _]]. auto. }
     unfold dm_get_users in E. rewrite E in H. exact H.
   - constructor; cbn; [constructor|tauto].
   - unfold dm_add_matching_func. constructor; cbn [d_rms d_mf].
     + rewrite map_map. cbn [fst]. apply (dw_nodup _ D).
     + intros d rm H. apply in_map_iff in H as [[d0 rm0] [E H]]. cbn [fst snd] in E. inversion E. subst.
-      destruct (dw_rm _ D _ _ H) as [W0 _]. destruct (rm_add_matching_func_WF mf rm0 W0) as [W' [M' _]]. auto.
+      destruct (dw_rm _ D _ _ H) as [W0 _]. destruct (rm_add_matching_func_WF rm0 W0) as [W' [M' _]]. auto.
   - unfold dm_add_domain_matching_func. apply dm_rebuild_DWF.
 Qed.
 
@@ -2291,4 +2288,4 @@ Theorem drun_DWF n ops : forall dm, DWF dm -> DWF (drun mf dmf n dm ops).
 Proof.
   induction ops as [|op t IH]; intros dm D; cbn [drun fold_left]; [exact D|]. apply IH. apply dstep_DWF. exact D.
 Qed.
-End DomainAll.
+End WithMatching.
